@@ -27,6 +27,24 @@ def run(res, tier, seed, replay):
                 res.violation("harness-crash", "harness c11 exited with %d: %s" % (rc, err[-800:]),
                               dict(kind="harness", cmd="c11 --tier %s --seed %d" % (tier, s), stderr=err[-2000:]))
             outs.append((s, out))
+    # part 2: keys, open stacks, group parameter sets and persisted states (implementation-level oracle only)
+    if not (replay and replay.get("replay", {}).get("record")):
+        exe2 = vpl.build_harness("c11b")
+        for s in seeds:
+            rc, out2, err = vpl.run_harness(exe2, ["--tier", tier, "--seed", s], timeout=1500)
+            if rc != 0:
+                res.violation("harness-crash", "harness c11b exited with %d: %s" % (rc, err[-800:]),
+                              dict(kind="harness", cmd="c11b --tier %s --seed %d" % (tier, s), stderr=err[-2000:]))
+            lines = out2.split("\n")
+            recs2 = [l for l in lines if l.startswith("REC ")]
+            res.cov["evaluations"] += len(recs2)
+            res.cov["distinct_nontrivial"] += len(set(recs2))
+            res.cov.setdefault("object_roundtrips_impl_only", 0)
+            res.cov["object_roundtrips_impl_only"] += len(recs2)
+            for p in [l for l in lines if l.startswith("PROPFAIL ")]:
+                parts = p.split(" ", 2)
+                res.violation(parts[1], "round-trip fails on the implementation: " + parts[2],
+                              dict(kind="propfail", harness="c11b", seed=s, tier=tier, line=p))
     for s, out in outs:
         mism, props = vpl.correspond(res, "C11", out, drv)
         for p in props:
